@@ -5,6 +5,7 @@ import Proofs.EncodeLift
 import Proofs.EncodeAttrs
 import Proofs.EncodeText
 import Proofs.ConvNodes
+import Proofs.EncodeSegments
 import Props.C11
 import Props.C10enc
 /-!
@@ -29,6 +30,13 @@ import Props.C10enc
   header cell `j` → `(0, j)` of the header's; line `i` of title / subline / page header / footer → `(i, 0)`;
   footnote / source → `(0, 0)`; spanning heading → the body's at `(0, page_by column)` or the default `False`
   (`C11enc_heading_default`); subline_by heading → never converted.
+* Segments (`C11enc_segment_offset`, `C11enc_segment_cell_flag`): a page that shows several page_by groups is encoded
+  by the renderer segment by segment, `_encode(segment, …, row_offset = rows of the page above the segment)`.  In the
+  model `encodeRows … off` is that call; encoding `above ++ seg` at once (what `renderBlock` does, data row `i` at
+  page-relative row `i - dataStart`) equals encoding `above` and then `seg` with offset `|above|`, and cell `j` of row
+  `i` of the segment reads its flag at attribute row `|above| + i` — the row's OWN page-relative row, not the row at
+  the same offset from the top of the page.  With `C11enc_data_flag_binding` this is the flag the user gave for the
+  cell's original (row, column) (`Props/C02encflag.lean`: `C02encflag_cell_own_flag`).
 -/
 namespace Props.C11enc
 open Model.Rtf Model.Emit Model.Encode Model.Broadcast Model.Layout Model.Convert
@@ -210,9 +218,64 @@ theorem C11enc_data_flag_binding (measure : Measure) (d : Doc) (pl : Plan) (hp :
     (∃ v, ilocV (Field.convert.get pl.bodyA) i c = .ok v ∧ _)
   rw [this]
 
+/-! ## segments of a page: `_encode(segment, col_widths, row_offset)` -/
+
+/-- **the segment offset.**  Encoding the rows `xs ++ ys` with offset `off` is encoding `xs` with `off` and then `ys`
+with `off + |xs|`: the `row_offset` the renderer hands to every segment of a page (the number of page rows above it)
+is exactly what makes segment-by-segment encoding equal to the encoding of the whole page. -/
+theorem C11enc_segment_offset (k : ColorCtx) (A : TblAttrsOf MatV) (cw : List Rat) (off : Nat)
+    (xs ys : List (List (Option Model.Encode.Str))) :
+    encodeRows k A cw off (xs ++ ys) =
+      (do let a ← encodeRows k A cw off xs
+          let b ← encodeRows k A cw (off + xs.length) ys
+          pure (a ++ b)) :=
+  Proofs.EncodeSegments.encodeRows_append k A cw off xs ys
+
+/-- **a cell of a later segment is converted under its own row's flag.**  The page holds the rows `above ++ seg`; the
+segment `seg` is encoded with `row_offset = |above|`.  Row `i` of the segment is row `|above| + i` of the page, and cell
+`j` of it is written as `textNodes (convText conv text)` with `conv` read at attribute position `(|above| + i, j)` —
+whatever the flags of the rows `0 … ` at the top of the page are. -/
+theorem C11enc_segment_cell_flag (k : ColorCtx) (A : TblAttrsOf MatV) (cw : List Rat)
+    (above seg : List (List (Option Model.Encode.Str))) (es : List Elem)
+    (h : encodeRows k A cw above.length seg = .ok es) (i : Nat) (cells : List (Option Model.Encode.Str))
+    (hc : seg[i]? = some cells) :
+    (above ++ seg)[above.length + i]? = some cells ∧
+    ∃ fmt : RowFmt, es[i]? = some (rowElem fmt) ∧ fmt.cells.length = cells.length ∧
+      ∀ j c, cells[j]? = some c → ∃ cf conv, fmt.cells[j]? = some cf ∧ FlagAt A.convert (above.length + i) j conv ∧
+        cf.body = textNodes (convText conv (c.getD [])) := by
+  refine ⟨?_, Proofs.EncodeSegments.encodeRows_holes h i cells hc⟩
+  rw [List.getElem?_append_right (Nat.le_add_right _ _), Nat.add_sub_cancel_left]
+  exact hc
+
 /-! ## non-vacuity -/
 
 set_option maxRecDepth 100000
+
+open Props.C01enc in
+/-- two page_by groups on one page (`g` is shown as spanning rows, so the page is encoded in two segments), a ROW-WISE
+`text_convert`: on for row 0, off for the `code` cell of row 1 -/
+def exRowwise : Doc :=
+  { exDoc [1, 2, 3] with
+    cols := ["g".toList, "code".toList, "label".toList],
+    rows := [[some "G1".toList, some "x^2".toList, some "a".toList],
+             [some "G2".toList, some "y^2".toList, some "b_1".toList]],
+    title := none, footnote := none, source := none, headers := [],
+    body := { attrs := { exTbl with convert := .nested [[.bool true, .bool true, .bool true],
+                                                        [.bool true, .bool false, .bool true]] },
+              colRelWidth := some [1, 2, 3], asColheader := true, groupBy := none, pageBy := some ["g".toList],
+              sublineBy := none, newPage := false, pagebyHeader := true, pagebyColumn := true } }
+
+open Props.C01enc in
+/-- the encoder accepts the document; the `code` cell of the first group is converted (`x\super 2`), the `code` cell of
+the SECOND group — first row of its segment — stands verbatim (`y^2`: its own flag, not the flag of the page's first
+row), its `label` cell is converted (`b\sub 1`) -/
+example :
+    shapeOk exRowwise.body.attrs.convert = true ∧
+    (match encodeText exMeasure exRowwise with
+     | .ok s => hasInfix " x\\super 2}".toList s && hasInfix " y^2}".toList s && hasInfix " b\\sub 1}".toList s &&
+                hasInfix " G1}".toList s && hasInfix " G2}".toList s
+     | .error _ => false) = true := by
+  refine ⟨by decide, by decide +kernel⟩
 
 /-- a `text_convert` that differs per column: `[[True, False]]` -/
 def convPerColumn : TblAttrsOf Attr :=
